@@ -199,6 +199,69 @@ def random_program(rnd, tier, depth=3, max_items=14, kinds=KINDS, names=("x", "y
 
 
 # ------------------------------------------------------------------ C05
+def c01_extras(tier, rnd):
+    """F5: the `attrs` builtin (static attributes of the innermost element) and <?python ?> code blocks
+    (assignments land in the variable scope and are not restored at the end of the element)"""
+    progs = []
+    q = tier == "quick"
+    vals = [S("a"), NONE] if q else [S("a"), NONE, I(7), SEQ([S("a")])]
+    exc = [EXC("ZeroDivisionError"), EXC("KeyError")]
+    # attrs
+    for where in ("content", "text", "define", "cond", "attr", "nested", "missing", "missing-pipe", "repeat", "fallback"):
+        for outer_attrs in ((), ("title",)):
+            al = Alloc("quick")
+            items = [Text("pre\n "), Open(sattr=list(outer_attrs) + ["lang"], name="section"), Text("\n  ")]
+            if where == "content":
+                items += [Open(sattr=["class", "title"], sub=("content", False, attrsx("title"))), Text("old"), CLOSE]
+            elif where == "text":
+                items += [Open(sattr=["class"]), Text("t", attrsx("class"), "u"), CLOSE, Text("w", attrsx("lang"))]
+            elif where == "define":
+                items += [Open(sattr=["class"], define=[(False, "x", attrsx("class")), (True, "y", attrsx("class"))]), probe(), CLOSE, probe()]
+            elif where == "cond":
+                items += [Open(sattr=["class"], cond=attrsx("class"), omit=al.call("omit")), Text("body"), CLOSE]
+            elif where == "attr":
+                items += [Open(sattr=["class", "id"], dattr=[("title", attrsx("class")), ("id", attrsx("id"))]), Text("body"), CLOSE]
+            elif where == "nested":
+                items += [Open(sattr=["class"]), Text("a", attrsx("class")), Open(sattr=["id"], tag="el"), Text("b", pipe(attrsx("class"), const(S("none")))),
+                          CLOSE, Text("c", attrsx("class")), CLOSE]
+            elif where == "missing":
+                items += [Open(sattr=["class"], oe=(False, const(S("a")))), Text("t", attrsx("nope")), CLOSE]
+            elif where == "missing-pipe":
+                items += [Open(sattr=["class"]), Text("t", pipe(attrsx("nope"), attrsx("class"))), CLOSE]
+            elif where == "repeat":
+                items += [Open(sattr=["class"], rep=(False, "x", al.call("repeat"))), Text("t", attrsx("class"), var("x")), CLOSE]
+            elif where == "fallback":
+                # the on-error expression is evaluated outside the element's own definitions
+                items += [Open(sattr=["class", "lang"], oe=(False, attrsx("lang"))), Text("t", al.call("content", [S("a"), EXC("ZeroDivisionError")])), CLOSE]
+            items += [Text("\n "), CLOSE, Text("post")]
+            progs.append(program(items, al.dom, fam="C01.F5:attrs-%s%s" % (where, "+outer" if outer_attrs else "")))
+    # code blocks
+    for where in ("top", "in-element", "in-define", "in-repeat", "raises", "raises-on-error", "reads", "global-then-code", "in-cond"):
+        al = Alloc("quick")
+        items = [Text("pre\n ")]
+        if where == "top":
+            items += [Code("x", al.call("define", vals)), probe(), Open(), probe(), CLOSE]
+        elif where == "in-element":
+            items += [Open(), Code("x", al.call("define", vals)), probe(), CLOSE, probe()]
+        elif where == "in-define":
+            items += [Open(define=[(False, "x", al.call("define", vals))]), probe(), Code("x", al.call("define", [S("b"), NONE])), probe(), CLOSE, probe()]
+        elif where == "in-repeat":
+            items += [Open(rep=(False, "y", al.call("repeat"))), Code("x", var("y")), probe(), CLOSE, probe()]
+        elif where == "raises":
+            items += [Open(), Text("a"), Code("x", al.call("define", vals + exc)), probe(), CLOSE, probe()]
+        elif where == "raises-on-error":
+            items += [Open(oe=(False, const(S("a")))), Text("a"), Code("x", al.call("define", vals + exc)), probe(), CLOSE, probe()]
+        elif where == "reads":
+            items += [Open(define=[(False, "y", al.call("define", vals))]), Code("x", var("y")), probe(), CLOSE, probe()]
+        elif where == "global-then-code":
+            items += [Open(define=[(True, "x", al.call("define", vals))]), probe(), CLOSE, Code("x", al.call("define", [S("b")])), probe()]
+        elif where == "in-cond":
+            items += [Open(cond=al.call("cond")), Code("x", al.call("define", vals)), probe(), CLOSE, probe()]
+        items += [Text("post")]
+        progs.append(program(items, al.dom, fam="C01.F5:code-%s" % where))
+    return progs
+
+
 def c05_chains(tier, rnd):
     """all nestings <= 3 of define-local / define-global / repeat elements over a
     name pool that contains a plain name, a Python builtin and a generated-code
